@@ -211,7 +211,7 @@ func c13Scenario(idx int, steps []c13Step, o, ot *peer) (map[string]any, []map[s
 		}
 		c := get(st.C)
 		k := st.K
-		if c.mitm && (k == "connect_tunnel" || k == "connect_rejected" || k == "upgrade" || k == "upgrade_close" || k == "mitm_connect" || k == "connect_write_error") {
+		if c.mitm && (k == "connect_tunnel" || k == "connect_rejected" || k == "upgrade" || k == "upgrade_close" || k == "mitm_connect" || k == "connect_write_error" || k == "connect_terminate_tls_fail") {
 			k = "ok" // inside an intercepted session only plain requests are sent
 		}
 		evs = append(evs, map[string]any{"ev": "exchange", "c": st.C, "k": k})
@@ -254,6 +254,14 @@ func c13Scenario(idx int, steps []c13Step, o, ot *peer) (map[string]any, []map[s
 			}
 			expectCodes["200"]++
 			drop(st.C)
+		case "connect_terminate_tls_fail":
+			// the target does not speak TLS: the handshake fails after the connection was dialled
+			c.raw.send([]byte("CONNECT origin.test:8080 HTTP/1.1\r\nHost: origin.test:8080\r\nX-Martian-Terminate-Tls: true\r\n\r\n"))
+			if r, err := c.raw.recv("CONNECT", 8*time.Second); err != nil || r.Status/100 != 5 {
+				fail(fmt.Sprintf("failed TLS termination expected an error response: %v %v", r, err))
+			} else {
+				expectCodes[fmt.Sprint(r.Status)]++
+			}
 		case "connect_rejected":
 			c.raw.send([]byte("CONNECT unmapped.test:8080 HTTP/1.1\r\nHost: unmapped.test:8080\r\n\r\n"))
 			if r, err := c.raw.recv("CONNECT", 8*time.Second); err != nil || r.Status != 502 {
@@ -333,7 +341,7 @@ func c13Scenario(idx int, steps []c13Step, o, ot *peer) (map[string]any, []map[s
 		time.Sleep(10 * time.Millisecond)
 	}
 	evs = append(evs, map[string]any{"ev": "metrics", "inflight": int(snap.inflight), "total": int(snap.total), "active": int(snap.active), "accepted": int(snap.accepted)})
-	res["metrics"] = map[string]any{"inflight": snap.inflight, "total": snap.total, "active": snap.active, "accepted": snap.accepted, "byCode": snap.byCode, "expected_total": nreq}
+	res["metrics"] = map[string]any{"inflight": snap.inflight, "total": snap.total, "active": snap.active, "accepted": snap.accepted, "byCode": snap.byCode, "expected_total": nreq, "dial_active": snap.dialActive}
 	if snap.inflight != 0 {
 		fail(fmt.Sprintf("in-flight gauge is %v with no exchange in progress", snap.inflight))
 	}
@@ -364,6 +372,7 @@ func c13Scenario(idx int, steps []c13Step, o, ot *peer) (map[string]any, []map[s
 		}
 		time.Sleep(10 * time.Millisecond)
 	}
+	res["dial_active_after_stop"] = snap.dialActive
 	if snap.dialActive != 0 {
 		fail(fmt.Sprintf("dialer active-connection gauge is %v after shutdown", snap.dialActive))
 	}
